@@ -1,8 +1,8 @@
 package main
 
 import (
-	"os"
 	"fmt"
+	"os"
 	"sort"
 	"strings"
 	"time"
@@ -39,7 +39,7 @@ func c13Tier(tier string) c13Params {
 		// the quick tier with the largest input of the thorough tier (used when trying seeded changes)
 		return c13Params{repoFlagSets: 1, deep: 2, uclass: 2, lrrec: 2, placement: 4, big: []int{1<<20 + 4096}, manyerrs: 2, gen: 10, genFree: 4, mut: 10, bytes: 4, faultsPer: 4, sessionLen: 24, realBinary: 2}
 	}
-	return c13Params{repoFlagSets: 1, deep: 12, uclass: 16, lrrec: 10, placement: placementCount, big: []int{70 << 10}, manyerrs: 8, gen: 70, genFree: 40, mut: 170, bytes: 30, faultsPer: 4, sessionLen: 24, realBinary: 12}
+	return c13Params{repoFlagSets: 1, deep: 12, uclass: 16, lrrec: 12, placement: placementCount, big: []int{70 << 10}, manyerrs: 8, gen: 70, genFree: 40, mut: 170, bytes: 30, faultsPer: 4, sessionLen: 24, realBinary: 12}
 }
 
 func c13Inputs(seed uint64, p c13Params, src string) []toolInput {
@@ -130,6 +130,9 @@ func c13Inputs(seed uint64, p c13Params, src string) []toolInput {
 	for i := 0; i < p.lrrec; i++ {
 		in := genLRRecoveryN(r, i)
 		in.Flags = drawFlags(r, in.Rules, r.chance(1, 3))
+		if in.Name == "recovref" && !contains(in.Flags, "-optimize-grammar") {
+			in.Flags = append(in.Flags, "-optimize-grammar")
+		}
 		ins = append(ins, in)
 		if contains(in.Flags, "-optimize-grammar") {
 			// the optimizer removes or inlines rules; also as written
@@ -187,7 +190,7 @@ func c13Judge(in toolInput, kind string, c *tooldriver.Case, o outcome, base *ou
 	}
 	noOutputExpected := hasFlag(in, "-x")
 	debug := hasFlag(in, "-debug")
-	faultFree := kind == "base" || kind == "twin" || kind == "short"
+	faultFree := kind == "base" || kind == "twin" || kind == "short" || kind == "opttwin" || kind == "cachetwin"
 	if run.Exit != 0 && run.Stderr.Len == 0 && c.Faults.ErrWriteErrAt < 0 {
 		return "silent-failure", fmt.Sprintf("exit status %d without any diagnostic on stderr", run.Exit)
 	}
@@ -235,6 +238,21 @@ func c13Judge(in toolInput, kind string, c *tooldriver.Case, o outcome, base *ou
 		}
 		if !debug && run.Exit == 0 && !noOutputExpected && outSum(run) != outSum(b) {
 			return "cache-dependent-output", "generated bytes differ when -cache is toggled"
+		}
+	case "opttwin":
+		// (run: without -optimize-grammar; b: with it) a rule the optimised
+		// parser refers to but does not contain must be one the grammar itself
+		// never defined
+		if run.Exit == 0 && b.Exit == 0 && !noOutputExpected {
+			plain := map[string]bool{}
+			for _, n := range run.OutDangling {
+				plain[n] = true
+			}
+			for _, n := range b.OutDangling {
+				if !plain[n] {
+					return "incomplete-output", fmt.Sprintf("with -optimize-grammar the emitted parser refers to rule %s, which it does not contain, although the grammar defines it (the parser emitted without the flag contains it)", n)
+				}
+			}
 		}
 	case "twin":
 		// the verdict and the generated bytes do not depend on how the text is delivered
@@ -364,6 +382,15 @@ func runC13(tier string) int {
 			c := makeCase(fmt.Sprintf("cachetwin-%d", i), in2, d, simos.NoFaults(), simmap.Asc, 0, 1)
 			c.StepCap = stepCapFor(len(in.Grammar))
 			varJobs = append(varJobs, job{i, c13Variant{"cachetwin", c}})
+		}
+		if contains(in.Flags, "-optimize-grammar") {
+			// -optimize-grammar only rewrites the grammar: the same run without
+			// it is the reference for what the emitted parser may refer to
+			in2 := in
+			in2.Flags = removeArgs(in.Flags, "-optimize-grammar", 1)
+			c := makeCase(fmt.Sprintf("opttwin-%d", i), in2, d, simos.NoFaults(), simmap.Asc, 0, 1)
+			c.StepCap = stepCapFor(len(in.Grammar))
+			varJobs = append(varJobs, job{i, c13Variant{"opttwin", c}})
 		}
 		if b.Status != "ok" {
 			continue
